@@ -36,6 +36,8 @@ pub fn root_of(pid: i32) -> String {
 pub fn isolated_config(tag: &str) -> Config {
     let pid = unsafe { libc::getpid() };
     let root = root_of(pid);
+    // a process with the same pid may have died here earlier without cleaning up
+    remove_leftovers(tag, pid);
     let _ = std::fs::create_dir_all(&root);
     let mut config = Config::default();
     config.global.set_root_path(&Path::new(root.as_bytes()).unwrap());
